@@ -47,6 +47,7 @@ let show_outcome = function
   | NotFound -> "404"
   | MethodNotAllowed ms -> "405 " ^ String.concat "|" (List.map csv_of_nlist ms)
   | WsMismatch -> "WS"
+  | Raised u -> if u then "UNSUPPORTED" else "EXN ValueError"
 let show_weight w =
   Printf.sprintf "%s;%s;%s;%s" (zs w.w_ns) (String.concat "," (List.map (fun (a, c) -> zs a ^ ":" ^ zs c) w.w_sw))
     (zs w.w_na) (String.concat "," (List.map zs w.w_aw))
